@@ -41,6 +41,20 @@ ListsOK(W, o) ==
   /\ Ents(o.senses) = SensesOf(W) /\ NoDup(o.senses)
   /\ Ents(o.synsets) = SynsetsOf(W) /\ NoDup(o.synsets)
 
+(* ---- look-ups by identifier ------------------------------------------------ *)
+\* LK rows: <<kind, id, Wordnet.kind(id), wn.kind(id, lexicon=, lang=)>>: an entity of
+\* the selection with that identifier, wn.Error when there is none
+LookupOK(W, t) ==
+  LET pool == CASE t[1] = "word" -> WordsOf(W) [] t[1] = "sense" -> SensesOf(W) [] OTHER -> SynsetsOf(W)
+      hits == {e \in pool : e[2] = t[2]}
+      Good(v) == IF hits = {} THEN v[1] = "err" ELSE v[1] = "ok" /\ <<v[2], v[3]>> \in hits IN
+    Good(t[3]) /\ Good(t[4])
+\* wn.words() / wn.senses() / wn.synsets() with the same lexicon / lang arguments
+ModuleListsOK(W, o) ==
+  /\ o.mlists[1][1] = "ok" /\ Ents(o.mlists[1][2]) = WordsOf(W) /\ NoDup(o.mlists[1][2])
+  /\ o.mlists[2][1] = "ok" /\ Ents(o.mlists[2][2]) = SensesOf(W) /\ NoDup(o.mlists[2][2])
+  /\ o.mlists[3][1] = "ok" /\ Ents(o.mlists[3][2]) = SynsetsOf(W) /\ NoDup(o.mlists[3][2])
+
 (* ---- navigation (C10) ---------------------------------------------------- *)
 \* the scope in which an identifier of entity x may be resolved
 ScopeOf(W, x) == IF W.default THEN Family(W.T, W.I, x[1]) ELSE W.S
@@ -182,6 +196,11 @@ SynsetClosureOK(W, t) ==
        /\ a[4][1] = "ok"
        /\ {[k \in DOMAIN p |-> Ent(p[k])] : p \in Rng(a[4][2])} = RelPaths(W, x, Types(a[1]))
        /\ \A p \in Rng(a[4][2]) : SimplePath(x, [k \in DOMAIN p |-> Ent(p[k])])
+       \* relation_paths(end=e): the simple paths from x that stop on first reaching e
+       /\ \A q \in Rng(a[5]) :
+            /\ q[2][1] = "ok"
+            /\ {[k \in DOMAIN p |-> Ent(p[k])] : p \in Rng(q[2][2])} = EndPaths(W, x, Types(a[1]), Ent(q[1]))
+            /\ Len(q[2][2]) = Cardinality(Rng(q[2][2]))
 NamedRelOK(W, t) ==
   LET x == Ent(t)
       R(ts) == Related(W, x, x[1], ts) IN
@@ -279,11 +298,14 @@ ObsFails(r, T, inst, o) ==
       R1(t) == SynsetRelOK(W, t)   R2(t) == SynsetClosureOK(W, t)  R3(t) == NamedRelOK(W, t)
       R4(t) == SenseRelOK(W, t)    R6(t) == NotesSynOK(W, t)
       R5(t) == \A a \in Rng(t[7]) : SenseSynRelOK(W, t, a) \/ DevRelatedSynsetsNoArgs(W, t, a)
+      L1(t) == LookupOK(W, t)
       X1(t) == OwnFirst(W, t)      X2(t) == PlaceholderOK(W, t)    X3(t) == HypPathsOK(W, t)
   IN
   (IF G(r, "ctor") THEN Cl(CtorOK(T, inst, o), "Constructor", o) ELSE {})
   \cup (IF o.st # "ok" \/ ConstructorFails(T, inst, o.cfg) THEN {} ELSE
-     (IF G(r, "ctor") THEN Cl(ListsOK(W, o), "EntityLists", o) \cup Cl(DescribeOK(W, o), "Describe", o) ELSE {})
+     (IF G(r, "ctor") THEN Cl(ListsOK(W, o), "EntityLists", o) \cup Cl(DescribeOK(W, o), "Describe", o)
+                           \cup Cl(ModuleListsOK(W, o), "ModuleLevelLists", o) ELSE {})
+     \cup (IF G(r, "ctor") \/ G(r, "nav") THEN Rows(Rng(o.LK), L1, "LookupById", o) ELSE {})
      \cup (IF G(r, "nav") THEN Rows(Rng(o.S), N1, "SenseNavigation", o)
                               \cup Rows(Rng(o.W), N2, "WordNavigation", o)
                               \cup Rows(Rng(o.Y), N3, "SynsetNavigation", o)
